@@ -135,6 +135,45 @@ Theorem c20_heap_push :
 Proof. exact @hp_push_spec. Qed.
 Print Assumptions c20_heap_push.
 
+
+(* all five calls of std.PriorityQueue / container/heap, any sequence: the run completes
+   iff every call is valid when issued (no Pop on empty, Fix/Remove index in range),
+   otherwise it panics; never out of fuel; the heap invariant is kept *)
+Theorem c20_heap_run_all :
+  forall (A : Type) (less : A -> A -> bool), hp_asym less -> hp_negtrans less ->
+  forall (ops : list (hp_op A)) (l : list A),
+    hp_heap less l ->
+    (hp_ops_valid (length l) ops = true ->
+       exists l' outs, hp_run less l ops = HpOk (l', outs) /\ hp_heap less l' /\
+                       length outs = length ops) /\
+    (hp_ops_valid (length l) ops = false -> hp_run less l ops = HpPanic).
+Proof. exact @hp_run_spec. Qed.
+Print Assumptions c20_heap_run_all.
+
+Theorem c20_heap_init :
+  forall (A : Type) (less : A -> A -> bool), hp_asym less -> hp_negtrans less ->
+  forall l : list A,
+    exists l', hp_init less l = HpOk l' /\ hp_heap less l' /\ Permutation l l' /\
+               length l' = length l.
+Proof. exact @hp_init_spec. Qed.
+Print Assumptions c20_heap_init.
+
+Theorem c20_heap_remove :
+  forall (A : Type) (less : A -> A -> bool), hp_asym less -> hp_negtrans less ->
+  forall (l : list A) (i : nat), hp_heap less l -> (i < length l)%nat ->
+    exists v l', hp_remove less l i = HpOk (l', v) /\ nth_error l i = Some v /\
+                 hp_heap less l' /\ Permutation l (v :: l') /\ S (length l') = length l.
+Proof. exact @hp_remove_spec. Qed.
+Print Assumptions c20_heap_remove.
+
+Theorem c20_heap_fix :
+  forall (A : Type) (less : A -> A -> bool), hp_asym less -> hp_negtrans less ->
+  forall (l : list A) (i : nat) (x : A), hp_heap less l -> (i < length l)%nat ->
+    exists l', hp_fix less (hp_set l i x) i = HpOk l' /\ hp_heap less l' /\
+               Permutation (hp_set l i x) l' /\ length l' = length l.
+Proof. exact @hp_fix_spec. Qed.
+Print Assumptions c20_heap_fix.
+
 (* non-vacuity: concrete instance with ties; and the distinct-key witness of the defect *)
 Example c20_nonvacuous :
   1 <= 3 <= 7 /\
